@@ -74,6 +74,11 @@ def run(tier, seed, selftest=False, replay=None):
                              "same_type": same, "result": r and r["sigma"], "count_in_table": j["n"]},
                             "unify_types(%s, %s, same_type=%s) = %s (table %s)" % (
                                 show(c["u"][i - 1]), show(c["ps"][k - 1]), same, r and {a: show(b) for a, b in r["sigma"].items()}, c["id"]))
+    ev = (0, 0, 0, None)
+    if not replay:
+        import ev_common
+        ev = ev_common.run_ev(PID, ["unify"], tier, seed, verdict,
+                              describe=lambda e: "unify_types(%s, %s, same_type=%s) = %s" % (show(e["t1"]), show(e["t2"]), e["same"], {k: show(v) for k, v in e["sigma"].items()}))
     rc = verdict.finish()
     r0 = sample["res"][len(sample["res"]) // 2]
     write_evidence(PID, tier, seed, "model_checking", {
@@ -86,6 +91,7 @@ def run(tier, seed, selftest=False, replay=None):
                 "Y : Number, I : Int, Z : A<X> (repeated, bounded, projected, nested variables); unify_types is called on every (target, pattern) pair in "
                 "both modes; evaluations = calls, distinct_nontrivial = calls with a non-empty result, each validated by TLC as a unifier (UnifierOK)",
         "tables": len(cases), "exhaustive": tier != "quick",
+        "ev_generator_calls": {"programs": ev[0], "distinct_nonempty_results_judged": ev[1], "not_judgeable": ev[2]},
     }, time.time() - t0, len(verdict.violations),
         ["only non-empty results are constrained (the property is one-directional)", "variables are identified by name"])
     return rc
